@@ -126,16 +126,20 @@ Proof.
   cbn [reset fst snd]. rewrite (reset_validity_set _ _ _ _ Hs), (list_loop_reset _ _ _ Hall _ _ _ _ Hloop). reflexivity.
 Qed.
 
-Ltac reset_leaf :=
-  let b := fresh "b" in let b' := fresh "b'" in let H := fresh "H" in
-  intros b b' H; destruct b; cbn [push] in H; try discriminate;
+Ltac reset_fin H :=
   repeat match type of H with
-         | context [text_of_scalar ?v] => destruct (text_of_scalar v) as [[| | |?| | | |]| |]; try discriminate
+         | context [is_utf8_kind ?k] => destruct (is_utf8_kind k); try discriminate H
+         | context [text_of_scalar ?v] => destruct (text_of_scalar v) as [[| | |?| | | |]| |]; try discriminate H
+         | context [binary_of_value ?v] => destruct (binary_of_value v) as [?| |?]; cbn [bind] in H; try discriminate H
          | bind _ _ = Ok _ => let x := fresh "x" in let Hx := fresh "Hx" in apply bind_ok in H as (x & Hx & H)
          end;
   injection H as <-; cbn [reset];
   repeat match goal with Hs : set_validity _ _ _ = Ok _ |- _ => rewrite (reset_validity_set _ _ _ _ Hs); clear Hs end;
   reflexivity.
+
+Ltac reset_leaf :=
+  let b := fresh "b" in let b' := fresh "b'" in let H := fresh "H" in
+  intros b b' H; destruct b; cbn [push] in H; try discriminate; reset_fin H.
 
 Lemma reset_push_scalar x : ResetOk push_scalar x.
 Proof.
@@ -155,30 +159,31 @@ Theorem reset_push : forall v, ResetOk push v.
 Proof.
   induction v using Value_ind'; unfold ResetOk in *.
   - reset_leaf. - reset_leaf. - reset_leaf. - reset_leaf. - reset_leaf. - reset_leaf.
-  - intros b b' H. destruct b; cbn [push text_of_scalar bind] in H; try discriminate;
-      [rewrite prim_value_nonscalar in H by exact I; discriminate|].
-    eapply (reset_list_gen push_scalar); [|exact H]. apply Forall_forall. intros x _. apply reset_push_scalar.
+  - intros b b' H. destruct b; cbn [push text_of_scalar bind] in H; try discriminate.
+    + rewrite prim_value_nonscalar in H by exact I; discriminate.
+    + reset_fin H.
+    + eapply (reset_list_gen push_scalar); [|exact H]. apply Forall_forall. intros x _. apply reset_push_scalar.
   - intros b b' H. cbn [push] in H. apply reset_push_none, H.
   - intros b b' H. cbn [push] in H. apply IHv, H.
   - intros b b' H. cbn [push] in H. apply reset_push_none, H.
   - intros b b' H. cbn [push] in H. apply reset_push_none, H.
   - intros b b' H. cbn [push] in H. apply IHv, H.
   - intros b b' H0. destruct b; cbn [push] in H0; try discriminate; try (rewrite prim_value_nonscalar in H0 by exact I; discriminate);
-      first [eapply reset_list; eassumption | revert H0; generalize b'; reset_leaf].
+      first [eapply reset_list; eassumption | reset_fin H0].
   - intros b b' H0. destruct b; cbn [push] in H0; try discriminate; try (rewrite prim_value_nonscalar in H0 by exact I; discriminate);
       first [eapply reset_list; eassumption
             | (eapply (reset_record _ _ _ _ (tuple_loop push l 0)); [|exact H0]; intros st st'; apply tuple_loop_reset, H)
-            | revert H0; generalize b'; reset_leaf].
+            | reset_fin H0].
   - intros b b' H0. destruct b; cbn [push] in H0; try discriminate; try (rewrite prim_value_nonscalar in H0 by exact I; discriminate);
       first [eapply reset_list; eassumption
             | (eapply (reset_record _ _ _ _ (tuple_loop push l 0)); [|exact H0]; intros st st'; apply tuple_loop_reset, H)
-            | revert H0; generalize b'; reset_leaf].
+            | reset_fin H0].
   - intros b b' H0. destruct b; cbn [push] in H0; try discriminate; try (rewrite prim_value_nonscalar in H0 by exact I; discriminate);
       first [(eapply (reset_record _ _ _ _ (map_loop push kvs)); [|exact H0]; intros st st'; apply map_loop_reset, H)
-            | revert H0; generalize b'; reset_leaf].
+            | reset_fin H0].
   - intros b b' H0. destruct b; cbn [push] in H0; try discriminate; try (rewrite prim_value_nonscalar in H0 by exact I; discriminate);
       first [(eapply (reset_record _ _ _ _ (struct_loop push fs)); [|exact H0]; intros st st'; apply struct_loop_reset, H)
-            | revert H0; generalize b'; reset_leaf].
+            | reset_fin H0].
   - reset_leaf. - reset_leaf. - reset_leaf. - reset_leaf.
 Qed.
 
